@@ -84,6 +84,15 @@ impl Report {
     /// `sig` identifies the kind of violation (used for known findings and for
     /// de-duplication); `what` is the human description; `replay` is self-contained
     pub fn violation(&mut self, sig: &str, what: String, replay: Value) {
+        let what = if what.len() > 3000 {
+            let mut cut = 3000;
+            while !what.is_char_boundary(cut) {
+                cut -= 1;
+            }
+            format!("{}... ({} bytes)", &what[..cut], what.len())
+        } else {
+            what
+        };
         self.n_violations += 1;
         self.map("violation_signatures", sig);
         // keep the first few per signature
